@@ -206,6 +206,38 @@ Proof.
   pose proof (write_varint_nonempty v). cbn [length]. lia.
 Qed.
 
+Lemma read_ids_bridge fuel : forall count last l ds r ids,
+  read_n fuel count l = Some (ds, r) -> prefix_sums last ds = Ok ids -> read_ids fuel count last l = Ok (ids, r).
+Proof.
+  induction fuel as [|f IH]; intros count last l ds r ids Hr Hp.
+  - cbn in *. destruct (count =? 0); [|discriminate]. injection Hr as <- <-. cbn in Hp. injection Hp as <-. reflexivity.
+  - cbn [read_n read_ids] in *. destruct (count =? 0).
+    + injection Hr as <- <-. cbn in Hp. injection Hp as <-. reflexivity.
+    + destruct (read_varint l) as [[d r1]|]; [|discriminate].
+      destruct (read_n f (count - 1) r1) as [[vs r2]|] eqn:E; [|discriminate]. injection Hr as <- <-.
+      cbn [prefix_sums] in Hp. destruct (two64 <=? last + d); [discriminate|].
+      destruct (prefix_sums (last + d) vs) as [ids'| | |] eqn:Ep; try discriminate. cbn in Hp. injection Hp as <-.
+      rewrite (IH _ _ _ _ _ _ E Ep). reflexivity.
+Qed.
+
+Lemma read_offsets_bridge fuel : forall prev lens l tmps r offs,
+  read_n fuel (N.of_nat (length lens)) l = Some (tmps, r) -> dec_offsets prev lens tmps = Ok offs ->
+  read_offsets fuel prev lens l = Ok offs.
+Proof.
+  induction fuel as [|f IH]; intros prev lens l tmps r offs Hr Hd.
+  - destruct lens as [|len lr]; [cbn in *; injection Hr as <- <-; cbn in Hd; exact Hd|].
+    cbn [read_n length] in Hr. replace (N.of_nat (S (length lr)) =? 0) with false in Hr by (symmetry; apply N.eqb_neq; lia). discriminate.
+  - destruct lens as [|len lr]; [cbn in *; injection Hr as <- <-; cbn in Hd; exact Hd|].
+    cbn [read_n read_offsets length] in *. replace (N.of_nat (S (length lr)) =? 0) with false in Hr by (symmetry; apply N.eqb_neq; lia).
+    destruct (read_varint l) as [[tmp r1]|]; [|discriminate].
+    replace (N.of_nat (S (length lr)) - 1) with (N.of_nat (length lr)) in Hr by lia.
+    destruct (read_n f (N.of_nat (length lr)) r1) as [[vs r2]|] eqn:E; [|discriminate]. injection Hr as <- <-.
+    cbn [dec_offsets] in Hd.
+    destruct (match prev with Some (po, pl) => if tmp =? 0 then if two64 <=? po + pl then Overflow else Ok (po + pl) else Ok (tmp - 1) | None => if tmp =? 0 then Overflow else Ok (tmp - 1) end) as [off| | |]; try discriminate.
+    cbn [obind] in *. destruct (dec_offsets (Some (off, len)) lr vs) as [os| | |] eqn:Ed; try discriminate.
+    rewrite (IH _ _ _ _ _ _ E Ed). exact Hd.
+Qed.
+
 Theorem deserialize_serialize ch es :
   Forall entry_ok es -> nondec 0 es -> N.of_nat (length es) <= 10000000000 ->
   deserialize (serialize_with ch es) = Ok es.
@@ -230,15 +262,19 @@ Proof.
   assert (A4 : forall prev ch', Forall (fun v => v < two64) (ser_offsets prev ch' es)).
   { clear -Hok. induction Hok as [|e r He _ IH]; intros prev ch'; cbn; constructor; [|apply IH].
     destruct He as (_ & _ & _ & Ho & _). destruct prev; [destruct (_ && _)|]; unfold two64 in *; lia. }
-  rewrite <- Lds at 1. rewrite read_n_flat by (try exact A1; lia).
+  assert (R1 : read_n total (N.of_nat (length es)) (flat_map write_varint (ser_deltas 0 es) ++ flat_map write_varint (map e_run es) ++ flat_map write_varint (map e_len es) ++ flat_map write_varint (ser_offsets None ch es))
+               = Some (ser_deltas 0 es, flat_map write_varint (map e_run es) ++ flat_map write_varint (map e_len es) ++ flat_map write_varint (ser_offsets None ch es))).
+  { rewrite <- Lds at 1. apply read_n_flat; [exact A1|lia]. }
+  rewrite (read_ids_bridge _ _ _ _ _ _ _ R1 (prefix_sums_deltas es 0 Hnd Hok)). cbn [obind].
   replace (N.of_nat (length es)) with (N.of_nat (length (map e_run es))) at 1 by (rewrite map_length; reflexivity).
   rewrite read_n_flat by (try exact A2; rewrite map_length; lia).
   replace (N.of_nat (length es)) with (N.of_nat (length (map e_len es))) at 1 by (rewrite map_length; reflexivity).
   rewrite read_n_flat by (try exact A3; rewrite map_length; lia).
-  rewrite <- (app_nil_r (flat_map write_varint (ser_offsets None ch es))).
-  rewrite <- (Los None ch) at 1. rewrite read_n_flat by (try apply A4; rewrite Los; lia).
-  rewrite prefix_sums_deltas by assumption. cbn [obind].
-  pose proof (dec_offsets_ser es None ch Hok) as Do. cbn [option_map] in Do. rewrite Do. cbn [obind]. rewrite zip4_maps by exact Hok. reflexivity.
+  assert (R4 : read_n total (N.of_nat (length (map e_len es))) (flat_map write_varint (ser_offsets None ch es)) = Some (ser_offsets None ch es, [])).
+  { rewrite <- (app_nil_r (flat_map write_varint (ser_offsets None ch es))). rewrite map_length, <- (Los None ch) at 1.
+    apply read_n_flat; [apply A4|rewrite Los; lia]. }
+  pose proof (dec_offsets_ser es None ch Hok) as Do. cbn [option_map] in Do.
+  rewrite (read_offsets_bridge _ _ _ _ _ _ _ R4 Do). cbn [obind]. rewrite zip4_maps by exact Hok. reflexivity.
 Qed.
 
 (* ---------- lookups inside runs ---------- *)
